@@ -13,7 +13,7 @@ for pid in ids:
     if os.path.exists("/repo/Cargo.lock") and not os.path.exists(f"{wt}/Cargo.lock"):
         shutil.copy("/repo/Cargo.lock", f"{wt}/Cargo.lock")
     json.dump(props[pid], open(f"{wt}/PROPERTY.json", "w"), indent=1, ensure_ascii=False)
-    prompt = f'''You are working alone in a scratch git worktree of the Rust crate "Narsese.rs" (a library for Narsese, the language of the NARS reasoning system: an enum term model and a lexical term model, ASCII / LaTeX / Han parsers and formatters, a lexical->enum "fold", a Typst renderer). Your worktree is {wt} . Work ONLY inside that directory; never touch /repo, /verif or any other path. There is no network: always pass --offline to cargo and export CARGO_NET_OFFLINE=true. A Cargo.lock is already in place. `cargo test --workspace --offline` currently passes 157 unit tests + 3 doc tests.
+    prompt = f'''You are working alone in a scratch git worktree of the Rust crate "Narsese.rs" (a library for Narsese, the language of the NARS reasoning system: an enum term model and a lexical term model, ASCII / LaTeX / Han parsers and formatters, a lexical->enum "fold", a Typst renderer). Your worktree is {wt} . Work ONLY inside that directory; never touch /repo, /verif or any other path. There is no network: always pass --offline to cargo and export CARGO_NET_OFFLINE=true. A Cargo.lock is already in place. NEVER use `git stash` (the stash is shared between all worktrees of this repository and other engineers work in sibling worktrees): to get back to a clean tree save your diff to a file (`git diff -- src > x.diff`), `git checkout src`, and later `git apply x.diff`. Use a private build directory: export CARGO_TARGET_DIR={wt}/target . `cargo test --workspace --offline` currently passes 157 unit tests + 3 doc tests.
 
 A semantic property the crate satisfies is in {wt}/PROPERTY.json (fields: statement, quantifier, why_tests_cant, anchors). Read it carefully, then read the code it is anchored in.
 
